@@ -255,7 +255,7 @@ def oracle_c14(ctx, desc, f0, spec, src, out, m, label, factor, case):
             if dd:
                 V('raw_channel_indices', 'channels.rawInd does not give each probe its original channel map: %s (%d probes)' % (
                     dd, len(maps)), file='channels.rawInd', n_probes=min(len(maps), 3))
-        elif spec.probes is None:
+        elif spec.probes is None or len(set(np.asarray(spec.probes).tolist())) == 1:
             dd = same(RI, spec.channel_map, dtype=False)
             if dd:
                 V('raw_channel_indices', 'channels.rawInd of a single-probe dataset is not its channel map: ' + dd,
